@@ -1,7 +1,7 @@
 (* Dispatch.v -- the single entry point of the extracted model: decodes a request
    tree into arguments of a model function and encodes the result.  Function numbers
    are read by tools/harness/model.py from the "FN <n> <name>" comments below. *)
-From P7 Require Import Prelude PyPrims Number Crc32.
+From P7 Require Import Prelude PyPrims Number Crc32 Header HeaderCodec.
 Open Scope Z_scope.
 
 Definition t_optpair {A} (f : A -> tree) (o : option (A * bytes)) : tree :=
@@ -15,5 +15,11 @@ Definition dispatch (fn : Z) (a : tree) : tree :=
   | 2 => t_optpair TI (spec_number (of_bytes a))
   (* FN 3 number_enc : v -> bytes *)
   | 3 => t_bytes (number_enc (of_TI a))
+  (* FN 10 parse_header : (lim bytes) -> res header *)
+  | 10 => t_res t_header (parse_header (of_TI (tnth a 0)) (of_bytes (tnth a 1)))
+  (* FN 11 write_header : (enable_digests pos header) -> res bytes *)
+  | 11 => t_res t_bytes (write_header (of_bool (tnth a 0)) (of_TI (tnth a 1)) (of_header (tnth a 2)))
+  (* FN 12 rd_number : bytes -> res (v rest) *)
+  | 12 => t_res (fun '(v, r) => TL [TI v; t_bytes r]) (rd_number (of_bytes a))
   | _ => TL [TI (-2)]
   end.
